@@ -2,6 +2,8 @@
 import itertools
 import json
 import os
+import random
+import re
 import subprocess
 
 from core import Property, Stream, enc, dec, enc_list, dec_list
@@ -127,6 +129,59 @@ def dir_paths(tree, prefix=""):
     return out
 
 
+def nameable(tree, prefix=""):
+    """what `reuse lint-file` can be handed from a generated tree: every regular file (covered or not, empty ones too), every
+    directory, and the symlinks that point at their own directory ('.'); a dangling symlink is refused by the command
+    line (click checks existence) and one that leaves the project is a usage error, so these two are not named"""
+    out = []
+    for name, node in tree:
+        if node[0] == "f":
+            out.append((prefix + name, "f"))
+        elif node[0] == "l":
+            if len(node) > 1 and node[1] == ".":
+                out.append((prefix + name, "l"))
+        else:
+            out.append((prefix + name, "d"))
+            out.extend(nameable(node[1], prefix + name + "/"))
+    return out
+
+
+SPELLINGS = ("rel", "rel", "dot", "abs", "updown")
+
+
+def spell(path, form, root, cwd):
+    """one of several spellings of the project-relative `path` as a command-line argument given in directory `cwd`"""
+    full = os.path.join(root, path)
+    if form == "abs":
+        return full
+    r = os.path.relpath(full, cwd)
+    if form == "dot":
+        return "./" + r
+    if form == "updown" and "/" in path and cwd == root:
+        d, b = path.rsplit("/", 1)
+        return d + "/../" + d.rsplit("/", 1)[-1] + "/" + b      # a/b/../b/f
+    return r
+
+
+LINT_FILE_LINE = re.compile(r"^(.*): (?:no license identifier|no copyright notice|read error|missing license \S+|bad license \S+)$")
+
+
+def lint_file_examined(root, cwd, opts, args):
+    """the project-relative paths `reuse lint-file ARGS` says something about.  The generated files carry no REUSE
+    information, so every file the command examines is named in at least two lines."""
+    code, out, exc = cli.run_cli(opts + ["lint-file"] + args, cwd)
+    if exc is not None or code not in (0, 1):
+        return ["<lint-file failed: exit %s %s %s>" % (code, type(exc).__name__ if exc else "", out.strip().splitlines()[-1:] if out.strip() else "")]
+    seen = set()
+    for line in out.splitlines():
+        m = LINT_FILE_LINE.match(line)
+        if m:
+            seen.add(os.path.relpath(os.path.join(cwd, m.group(1)), root))
+        elif line.strip() and "Warning" not in line and not line.startswith("  warnings.warn"):
+            seen.add("<unparsed: %s>" % line[:60])
+    return sorted(seen)
+
+
 class NameStream(Stream):
     name = "names"
     exhaustive = True
@@ -212,6 +267,13 @@ class TreeStream(Stream):
                 # subprojects/x, .hg) included: exactly the covered files below DIR may be touched
                 dirs = dir_paths(tree)
                 case["rdirs"] = rng.sample(dirs, min(3, len(dirs)))
+                # `lint-file`: (1) every nameable path of the tree, covered or not, each in a random spelling, from the root;
+                # (2) a random part of them, from a sub-directory as working directory (with --root)
+                names = nameable(tree)
+                case["lf1"] = [[p, rng.choice(SPELLINGS)] for p, k in names if k != "d" or rng.random() < 0.3]
+                rng.shuffle(case["lf1"])
+                part = [p for p, k in names if rng.random() < 0.5]
+                case["lf2"] = {"cwd": rng.choice([""] + [d for d in dirs]), "sel": [[p, rng.choice(("rel", "abs", "dot"))] for p in part]}
             yield case
 
     @staticmethod
@@ -251,6 +313,14 @@ class TreeStream(Stream):
                     lint_files = ["<lint failed>"]
                 code, out, exc3 = cli.run_cli(opts + ["spdx"], root)
                 spdx_files = sorted(l[len("FileName: ./"):] for l in out.splitlines() if l.startswith("FileName: ./"))
+                lf = ""
+                if case.get("lf1"):
+                    lf += "|lintfile=%s" % ";".join(lint_file_examined(
+                        root, root, opts + ["--no-multiprocessing"], [spell(p, form, root, root) for p, form in case["lf1"]]))
+                if case.get("lf2") and case["lf2"]["sel"]:
+                    cwd = os.path.join(root, case["lf2"]["cwd"]) if case["lf2"]["cwd"] else root
+                    lf += "|lintfile2=%s" % ";".join(lint_file_examined(
+                        root, cwd, opts + ["--no-multiprocessing", "--root", root], [spell(p, form, root, cwd) for p, form in case["lf2"]["sel"]]))
                 before = cli.snapshot(root)
                 code, out, exc4 = cli.run_cli(opts + ["annotate", "-c", "Jane", "-l", "MIT", "--recursive", "--fallback-dot-license", "."], root)
                 after = cli.snapshot(root)
@@ -258,7 +328,7 @@ class TreeStream(Stream):
                 for k in set(before) | set(after):
                     if before.get(k) != after.get(k):
                         touched.add(k[:-len(".license")] if k.endswith(".license") and k not in before else k)
-                extra = "|lint=%s|spdx=%s|annot=%s" % (";".join(lint_files), ";".join(spdx_files), ";".join(sorted(touched)))
+                extra = "|lint=%s|spdx=%s|annot=%s%s" % (";".join(lint_files), ";".join(spdx_files), ";".join(sorted(touched)), lf)
         for d in case.get("rdirs", []):
             with cli.scratch("rv-c03r-") as root:
                 materialise(root, tree)
@@ -302,6 +372,17 @@ class TreeStream(Stream):
                 if v != below:
                     return "recursive-set-differs: `annotate --recursive %s` touched %s, the covered files below it are %s" % (d, v, below)
                 continue
+            if k == "lintfile2":
+                named = {p for p, _ in case["lf2"]["sel"]}
+                part = ";".join(p for p in want.split(";") if p in named)
+                if v != part:
+                    return ("lint-file-set-differs: `lint-file` from %r on %d named paths examines %s, the covered files among the named are %s"
+                            % (case["lf2"]["cwd"] or ".", len(named), v, part))
+                continue
+            if k == "lintfile" and v != want:
+                a, b = set(v.split(";")) - {""}, set(want.split(";")) - {""}
+                return ("lint-file-set-differs: `lint-file` on every path of the tree examines %s although excluded, skips the covered %s"
+                        % (sorted(a - b), sorted(b - a)))
             if v != want:
                 return "command-set-differs: %s considers %s, covered files are %s" % (k, v, want)
         return None
@@ -433,6 +514,15 @@ class GitStream(Stream):
                 with cli.chdir(root):
                     project = Project.from_directory(root, include_submodules=flags[0] == "1", include_meson_subprojects=flags[1] == "1")
                     got = sorted(os.path.relpath(str(p), root) for p in project.all_files())
+                    # lint-file's file source: every file on disk named (those inside .git, ignored directories, the
+                    # submodule and subprojects/ included), through Project.subset_files and through the command; then a random half
+                    every = list(allf) + [x for x in (".git/HEAD", ".git/config") if os.path.exists(os.path.join(root, x))]
+                    lf_all = sorted(os.path.relpath(str(p), root) for p in project.subset_files([os.path.join(root, x) for x in every]))
+                    half = sorted(x for x in every if rng.random() < 0.5)
+                    lf_half = sorted(os.path.relpath(str(p), root) for p in project.subset_files(half)) if half else []
+                opts = (["--include-submodules"] if flags[0] == "1" else []) + (["--include-meson-subprojects"] if flags[1] == "1" else [])
+                forms = [rng.choice(("rel", "dot", "abs")) for _ in every]
+                lf_cli = lint_file_examined(root, root, opts + ["--no-multiprocessing"], [spell(x, f, root, root) for x, f in zip(every, forms)])
             finally:
                 logging.disable(logging.NOTSET)
                 for k, v in saved_env.items():
@@ -463,7 +553,8 @@ class GitStream(Stream):
                 return out
             disk = read(root)
             tracked = sorted(x for x in _git(["ls-files", "-z"], root).stdout.decode().split("\0") if x)
-            return json.dumps({"got": got, "ignored": ignored, "sub": [sub] if sub else [], "disk": disk, "tracked": tracked})
+            return json.dumps({"got": got, "ignored": ignored, "sub": [sub] if sub else [], "disk": disk, "tracked": tracked,
+                               "lf_all": lf_all, "lf_cli": lf_cli, "lf_half": lf_half, "half": half})
 
     def model_lines(self, case):
         return []  # needs the on-disk facts; compared inside the oracle through a second driver round
@@ -483,11 +574,22 @@ class GitStream(Stream):
             a, b = set(r["got"]), set(want)
             self._last = (sorted(a - b), sorted(b - a), r)
             return "git-covered-set-differs: examined although excluded/ignored %s; covered but skipped %s" % (sorted(a - b), sorted(b - a))
+        # lint-file: of the named files exactly the covered ones are examined (C03_same_set / C03_subset)
+        for key, named, how in (("lf_all", None, "Project.subset_files(<every file on disk>)"), ("lf_cli", None, "`reuse lint-file <every file on disk>`"),
+                                ("lf_half", set(r.get("half", [])), "Project.subset_files(<half of the files on disk>)")):
+            if key not in r:
+                continue
+            part = want if named is None else [p for p in want if p in named]
+            if r[key] != part:
+                a, b = set(r[key]), set(part)
+                return "git-lint-file-set-differs: %s examines %s although excluded/ignored; skips the covered %s" % (how, sorted(a - b), sorted(b - a))
         # model vs implementation on the same facts
         line = "walk\t%s0\t\t%s\t%s\t%s" % (case["flags"], " ".join(tree_tokens(disk)), enc_list(r["ignored"]), enc_list(r["sub"]))
         mo = sorted(dec_list(run_driver([line])[0]))
         if mo != r["got"]:
             return "git-model-differs: model %s, tool %s" % (mo, r["got"])
+        if "lf_half" in r and [p for p in mo if p in set(r["half"])] != r["lf_half"]:
+            return "git-model-differs: model restricted to the named files %s, lint-file's source %s" % ([p for p in mo if p in set(r["half"])], r["lf_half"])
         return None
 
     def classify(self, case, failure):
@@ -524,6 +626,12 @@ class TreeStreamCmp(TreeStream):
         if case.get("cmds"):
             out = base + "|lint=%s|spdx=%s|annot=%s" % (base, base, base)
             # C03_recursive: `--recursive DIR` = the covered files of the one walk that lie below DIR
+            # C03_subset: naming files restricts the one walk to the named ones
+            if case.get("lf1"):
+                out += "|lintfile=%s" % base
+            if case.get("lf2") and case["lf2"]["sel"]:
+                named = {p for p, _ in case["lf2"]["sel"]}
+                out += "|lintfile2=%s" % ";".join(p for p in base.split(";") if p in named)
             for d in case.get("rdirs", []):
                 out += "|annot:%s=%s" % (enc(d), ";".join(p for p in base.split(";") if p.startswith(d + "/")))
             return out
